@@ -513,7 +513,10 @@ class Recorder:
                               "body_hex": body.hex() if len(body) < 20000 else None, "body_len": len(body)})
         plan = self.plan or {"status": 200, "json": {}}
         kw = {}
-        if "json" in plan:
+        if "json" in plan and plan["json"] is None:
+            kw["content"] = b"null"     # httpx.Response(json=None) would send an EMPTY body, which is not the JSON document null
+            plan = dict(plan, headers=dict({"content-type": "application/json"}, **(plan.get("headers") or {})))
+        elif "json" in plan:
             kw["json"] = plan["json"]
         elif "content_hex" in plan:
             kw["content"] = bytes.fromhex(plan["content_hex"])
